@@ -126,12 +126,17 @@ func decodeTok(tok json.Token, dec *json.Decoder, t vtree.Tree, path string) str
 }
 
 func check(c Case) string {
-	out, err, pan := exportJSON(c.Tree.Impl())
+	v := c.Tree.Impl()
+	out, err, pan := exportJSON(v)
 	if pan != "" {
 		return "the JSON export panics: " + pan
 	}
 	if err != nil {
 		return "the JSON export fails: " + err.Error()
+	}
+	// exporting does not consume or change the value: the second export is the first
+	if again, err2, pan2 := exportJSON(v); pan2 != "" || err2 != nil || !bytes.Equal(out, again) {
+		return fmt.Sprintf("the second export of the same value differs: %q, then %q (%v %s)", out, again, err2, pan2)
 	}
 	if !json.Valid(out) {
 		var v any
